@@ -366,6 +366,33 @@ func (c19) Execute(env *kernel.Env, raw json.RawMessage, ch *kernel.Choices) *ke
 	if again != base {
 		return viol("second_assembly_of_same_list_differs", fmt.Sprintf("supplied %s\nfirst call:  %q\nsecond call on the same slice: %q", ids(p.Stream), base, again))
 	}
+	// history with a caller edit in between: one element of the slice just
+	// assembled is promoted / demoted or renamed in place (keeping the
+	// precondition), then the slice is assembled again: the text must be the one
+	// a fresh list with the same (ID, content, priority) values gives
+	if n := len(supplied); n > 0 {
+		k := int(kernel.Hash64(base) % uint64(n))
+		edited := append([]generator.Declaration(nil), supplied...)
+		// all copies of that ID are edited alike
+		target, rename := edited[k].ID, len(base)%2 == 1
+		fresh := make([]generator.Declaration, len(edited))
+		for i := range edited {
+			if supplied[i].ID == target {
+				if rename {
+					supplied[i].ID = target + "~edited"
+				} else {
+					supplied[i].Priority = !supplied[i].Priority
+				}
+			}
+			fresh[i] = generator.Declaration{ID: supplied[i].ID, Content: supplied[i].Content, Priority: supplied[i].Priority}
+		}
+		got := generator.WriteDeclarations(supplied)
+		want := generator.WriteDeclarations(fresh)
+		out.Steps += 2
+		if got != want {
+			return viol("assembly_after_caller_edit_differs", fmt.Sprintf("supplied %s\nafter the first assembly the caller edited declaration %q in place (rename=%v, else priority flipped) and assembled the same slice again\nsame slice:  %q\nfresh list with equal values: %q", ids(p.Stream), target, rename, got, want))
+		}
+	}
 	delivered := p.Stream
 	for _, f := range p.Faults {
 		delivered = apply(delivered, f, out.Fault)
